@@ -175,12 +175,20 @@ sched_decision(Kind k)
       if (n >= 0) E->st.preempts_taken++;
     }
   }
+  bool by_yield = false;
   if (n < 0 && (me.yielding || k == kHint)) {
     n = pick_next(my, false);
     if (n < 0) n = pick_next(my, true);
-    if (n >= 0) E->st.yields++;
+    if (n >= 0) {
+      E->st.yields++;
+      by_yield = true;
+    }
   }
-  if (n >= 0 && n != my) switch_to(n);
+  if (n >= 0 && n != my) {
+    switch_to(n);
+    // resumed: the yield has been served (a spinning thread marks itself again in its next iteration)
+    if (by_yield) me.yielding = false;
+  }
 }
 
 void
